@@ -368,7 +368,12 @@ class PageRenderer:
                             )
                             elements.extend(spanning)
 
-                    # Update state
+                    # Update state. A level whose new value is a divider has no
+                    # entry in new_values: forget its previous value, otherwise a
+                    # later group with that same text would not get its heading.
+                    for col_name in page_by_cols:
+                        if col_name not in new_values:
+                            last_values.pop(col_name, None)
                     last_values.update(new_values)
 
                 prev_row = page_rel_row
